@@ -3,6 +3,7 @@
 package handler_test
 
 import (
+	"fmt"
 	"net/http"
 	"sync"
 	"testing"
@@ -78,6 +79,15 @@ func emptyPayloadKnown() bool {
 	return verifkit.KnownFindings("C18")[verifc18.KnownEmptyPayload]
 }
 
+func unknownLengthKnown() bool {
+	return verifkit.KnownFindings("C18")[verifc18.KnownUnknownLength]
+}
+
+func csOptions() verifc18.CSGenOpt {
+	return verifc18.CSGenOpt{ExcludeEmptyEncrypted: emptyPayloadKnown(), ExcludeUnknownLenEncrypted: unknownLengthKnown(),
+		CodecEncrypt: codecEncrypt}
+}
+
 func TestVerifC18JWT(t *testing.T) {
 	logx.Disable()
 	st := verifkit.New("jwt")
@@ -96,7 +106,27 @@ func TestVerifC18ContentSecurity(t *testing.T) {
 	}
 	st := verifkit.New("content-security")
 	defer st.Flush()
-	opt := verifc18.CSGenOpt{ExcludeEmptyEncrypted: emptyPayloadKnown(), CodecEncrypt: codecEncrypt}
+	opt := csOptions()
+	rapid.Check(t, func(t *rapid.T) {
+		st.Eval()
+		verifc18.RunCSCase(t, st, env, opt, buildContentSecurity)
+	})
+}
+
+// The same property with every request travelling through a real HTTP server
+// (httptest.NewServer + http.Client): bodies of unknown length go out with
+// Transfer-Encoding: chunked, so r.ContentLength is what net/http really reports.
+func TestVerifC18ContentSecurityWire(t *testing.T) {
+	logx.Disable()
+	env, err := verifc18.GetEnv()
+	if err != nil {
+		t.Fatalf("rsa setup: %v", err)
+	}
+	st := verifkit.New("content-security-wire")
+	defer st.Flush()
+	opt := csOptions()
+	opt.Wire = verifc18.NewWireTarget()
+	defer opt.Wire.Close()
 	rapid.Check(t, func(t *rapid.T) {
 		st.Eval()
 		verifc18.RunCSCase(t, st, env, opt, buildContentSecurity)
@@ -107,10 +137,10 @@ func TestVerifC18Cryption(t *testing.T) {
 	logx.Disable()
 	st := verifkit.New("cryption")
 	defer st.Flush()
-	known := emptyPayloadKnown()
+	known, knownLen := emptyPayloadKnown(), unknownLengthKnown()
 	rapid.Check(t, func(t *rapid.T) {
 		st.Eval()
-		verifc18.RunCryptCase(t, st, known, buildCryption)
+		verifc18.RunCryptCase(t, st, known, knownLen, buildCryption)
 	})
 }
 
@@ -124,8 +154,8 @@ func TestVerifC18RegressEmptyPayloadCryption(t *testing.T) {
 	st.Eval()
 	c := verifc18.CryptCase{Key: []byte("0123456789abcdef"), Payload: nil, Resp: []byte("pong"), Chunks: 1, SendBody: true}
 	st.Sample("CryptionHandler(16-byte key): POST body = base64(AES-ECB(PKCS7(empty payload))), handler writes \"pong\"")
-	problem, isDefect := verifc18.CheckCrypt(c, buildCryption)
-	reportEmptyPayload(t, st, problem, isDefect)
+	problem, defect := verifc18.CheckCrypt(c, buildCryption)
+	reportKnownOrFail(t, st, problem, defect)
 }
 
 func TestVerifC18RegressEmptyPayloadSigned(t *testing.T) {
@@ -146,21 +176,120 @@ func TestVerifC18RegressEmptyPayloadSigned(t *testing.T) {
 	st.Sample("strict content security, tolerance 1h: " + req.Desc + " (empty payload sent encrypted)")
 	probe := &verifc18.Probe{}
 	gate := buildContentSecurity(conf, map[string]string{conf.FpA: env.A.PrivFile, conf.FpB: env.B.PrivFile}, nil, probe)
-	problem, isDefect, inconclusive := verifc18.SendCS(env, conf, gate, probe, req, nil)
+	problem, defect, inconclusive := verifc18.SendCS(env, conf, gate, probe, req, nil, nil)
 	if inconclusive {
 		st.Note("regression request took more than 3 s (inconclusive)")
 		return
 	}
-	reportEmptyPayload(t, st, problem, isDefect)
+	reportKnownOrFail(t, st, problem, defect)
 }
 
-func reportEmptyPayload(t *testing.T, st *verifkit.Stats, problem string, isDefect bool) {
+// Regression (FINDINGS.md, D-C18-2): an encrypted body sent without a declared length
+// (ContentLength == -1, Transfer-Encoding: chunked on the wire) must reach the handler
+// decrypted, like the same bytes sent with a Content-Length.  Shrunk from
+// TestVerifC18Cryption / TestVerifC18ContentSecurity.
+func TestVerifC18RegressUnknownLengthCryption(t *testing.T) {
+	logx.Disable()
+	st := verifkit.New("regress-unknown-length-cryption")
+	defer st.Flush()
+	for _, shape := range []string{verifc18.ShapeSized, verifc18.ShapeUnknown, verifc18.ShapeUnknown1} {
+		st.Eval()
+		c := verifc18.CryptCase{Key: []byte("0123456789abcdef"), Payload: []byte("ping"), Resp: []byte("pong"), Chunks: 1, SendBody: true, Shape: shape}
+		st.Sample("CryptionHandler(16-byte key): POST body = base64(AES-ECB(PKCS7(\"ping\"))) sent " + shape)
+		problem, defect := verifc18.CheckCrypt(c, buildCryption)
+		reportKnownOrFail(t, st, problem, defect)
+	}
+}
+
+func TestVerifC18RegressUnknownLengthSigned(t *testing.T) {
+	logx.Disable()
+	env, err := verifc18.GetEnv()
+	if err != nil {
+		t.Fatalf("rsa setup: %v", err)
+	}
+	st := verifkit.New("regress-unknown-length-signed")
+	defer st.Flush()
+	conf := verifc18.CSConf{TolSec: 3600, FpA: "fp-a", FpB: "fp-b"}
+	for _, encrypted := range []bool{false, true} {
+		for _, shape := range []string{verifc18.ShapeSized, verifc18.ShapeUnknown, verifc18.ShapeUnknown1} {
+			st.Eval()
+			req, err := verifc18.BuildCSReq(env, conf, time.Now().Unix(), http.MethodPost, "/a", "x=1", []byte("ping"),
+				[]byte("0123456789abcdef"), encrypted, []byte("pong"))
+			if err != nil {
+				t.Fatal(err)
+			}
+			req.Shape = shape
+			req.UnknownLenEncrypted = encrypted && shape != verifc18.ShapeSized
+			st.Sample("strict content security, tolerance 1h: " + req.Desc + " sent " + shape)
+			probe := &verifc18.Probe{}
+			gate := buildContentSecurity(conf, map[string]string{conf.FpA: env.A.PrivFile, conf.FpB: env.B.PrivFile}, nil, probe)
+			problem, defect, inconclusive := verifc18.SendCS(env, conf, gate, probe, req, nil, nil)
+			if inconclusive {
+				st.Note("regression request took more than 3 s (inconclusive)")
+				continue
+			}
+			reportKnownOrFail(t, st, problem, defect)
+		}
+	}
+}
+
+// Regression for the class "body digest computed from something else than the bytes the
+// handler will read" (seeded change C18a): the signature of a body-less request, replayed
+// with a body under every transport shape, and the signature of a request with a body
+// replayed without one, must be refused with 403 and the handler must not run.
+func TestVerifC18RegressReplayWithOtherBody(t *testing.T) {
+	logx.Disable()
+	env, err := verifc18.GetEnv()
+	if err != nil {
+		t.Fatalf("rsa setup: %v", err)
+	}
+	st := verifkit.New("regress-replay-other-body")
+	defer st.Flush()
+	conf := verifc18.CSConf{TolSec: 3600, FpA: "fp-a", FpB: "fp-b"}
+	evil := []byte(`{"transfer":"everything","to":"mallory"}`)
+	for _, method := range []string{http.MethodGet, http.MethodPost, http.MethodPut, http.MethodDelete} {
+		for _, signedBody := range [][]byte{nil, []byte("hello")} {
+			for _, shape := range []string{verifc18.ShapeSized, verifc18.ShapeUnknown, verifc18.ShapeUnknown1} {
+				st.Eval()
+				req, err := verifc18.BuildCSReq(env, conf, time.Now().Unix(), method, "/a/b", "c=d&e=f", signedBody,
+					[]byte("0123456789abcdef"), false, []byte("pong"))
+				if err != nil {
+					t.Fatal(err)
+				}
+				// replay the captured header with another body
+				req.Pristine, req.WantValid, req.Mut, req.Shape = false, false, "body-replay", shape
+				if signedBody == nil {
+					req.Body = evil
+				} else {
+					req.Body = nil
+				}
+				st.Sample(fmt.Sprintf("%s /a/b?c=d&e=f signed with a %d-byte body, replayed with a %d-byte body sent %s", method, len(signedBody), len(req.Body), shape))
+				probe := &verifc18.Probe{}
+				gate := buildContentSecurity(conf, map[string]string{conf.FpA: env.A.PrivFile, conf.FpB: env.B.PrivFile}, nil, probe)
+				problem, _, inconclusive := verifc18.SendCS(env, conf, gate, probe, req, nil, nil)
+				if inconclusive {
+					st.Note("regression request took more than 3 s (inconclusive)")
+					continue
+				}
+				if problem != "" {
+					t.Fatalf("C18: %s", problem)
+				}
+			}
+		}
+	}
+}
+
+func reportKnownOrFail(t *testing.T, st *verifkit.Stats, problem, defect string) {
 	t.Helper()
 	if problem == "" {
 		return
 	}
-	if isDefect && emptyPayloadKnown() {
-		st.KnownFinding(verifc18.KnownEmptyPayload, "empty payload encrypted by the client is answered 400 instead of reaching the handler (pkcs5Unpadding rejects a full block of padding)")
+	switch {
+	case defect == verifc18.KnownEmptyPayload && emptyPayloadKnown():
+		st.KnownFinding(defect, "empty payload encrypted by the client is answered 400 instead of reaching the handler (pkcs5Unpadding rejects a full block of padding)")
+		return
+	case defect == verifc18.KnownUnknownLength && unknownLengthKnown():
+		st.KnownFinding(defect, "encrypted body sent with unknown length (chunked) reaches the handler undecrypted (ContentLength <= 0 is taken for 'no body')")
 		return
 	}
 	t.Fatalf("C18: %s", problem)
